@@ -59,6 +59,13 @@ ACCEPT = [
     ('ug-assumption-private', 'program', 'p(X) :- q(X), not r(X). r(X) :- q(X), X > 1.', 'p(X) :- q(X), X <= 1.',
      UG + ' assumption: forall X (r(X) -> q(X)).'),
     ('ug-assumption-inputs-only', 'program', 'p(X) :- q(X).', 'p(X) :- q(X).', UG + ' assumption: forall X (q(X) -> X > 0).'),
+    ('ug-second-assumption-output', 'program', 'p(X) :- q(X).', 'p(X) :- q(X).',
+     UG + ' assumption: forall X (q(X) -> X > 0). assumption: forall X (q(X) -> p(X)).'),
+    ('ug-directed-assumption-output', 'program', 'p(X) :- q(X).', 'p(X) :- q(X).', UG + ' assumption(forward): forall X (p(X) -> q(X)).'),
+    ('spec-assumption-output-after-spec', 'spec', 'spec: forall X (p(X) <-> q(X)). assumption: forall X (q(X) -> X > 0). '
+     'assumption(forward): forall X (p(X) -> q(X)).', 'p(X) :- q(X).', UG),
+    ('overlap-declared-after-other-arity', 'program', 'p(X) :- q(X).', 'p(X) :- q(X).', 'input: q/2. input: q/1. output: p/1. output: q/1.'),
+    ('private-recursion-through-choice-body', 'program', 'r(X) :- q(X), not s(X). {s(X)} :- r(X). p(X) :- r(X).', 'p(X) :- q(X).', UG),
     ('placeholder-two-sorts', 'program', 'p(n).', 'p(n) :- not q(n).', 'input: n -> integer. input: n -> general. input: q/1. output: p/1.'),
     ('placeholder-twice-same-sort', 'program', 'p(n).', 'p(n) :- not q(n).', 'input: n -> integer. input: n -> integer. input: q/1. output: p/1.'),
     ('spec-assumption-output', 'spec', 'assumption: forall X (p(X) -> q(X)). spec: forall X (p(X) <-> q(X)).', 'p(X) :- q(X).', UG),
@@ -270,7 +277,7 @@ def check_item(item):
     req = ('external_task', Q(kind), Q(left), Q(right), Q(ug), Q(''), Q('universal'), Q('sequential'), Q('true'), Q('true'),
            Q(str(bypass).lower()))
     resp = b.call(*req, timeout=120)
-    refused = resp[0][0] == 'refused'
+    refused = resp[0][:1] == ('refused',)
     nproblems = 0 if refused else len(resp[0])
     r = {'family': fam, 'key': 'accept#' + label, 'input': '%s :: %s || %s || %s' % (label, left[:100], right[:100], ug[:100]),
          'nontrivial': True, 'twin': item.get('twin', False), 'ms': solver_ms, 'queries': 2 * len(progs),
